@@ -37,5 +37,12 @@ pub mod stubs;
 pub mod c01;
 pub mod c02;
 pub mod c06;
+pub mod c07;
 pub mod c08;
-pub mod c99;
+pub mod c09;
+pub mod c10;
+pub mod c11;
+pub mod c12;
+pub mod c15;
+pub mod c17;
+pub mod scratch;
